@@ -166,7 +166,10 @@ def dry_run(ctx, scen, par):
     snaps = []   # (n, close idx, bytes, file, position in ev)
     for i, e in enumerate(ev):
         if e[0] == "S": snaps.append((e[1], e[2], e[3], e[4], i))
-    res = dict(dir=d, ev=ev, ops=ops, snaps=snaps, init_ops=first_model or 0, verdict=verdict_of(pr, "none", "plain"), wall=wall)
+    verdict = verdict_of(pr, "none", "plain")
+    other = [e for e in ops if e[3] == "other"]
+    if other: verdict["viols"].append(dict(key="undocumented-checkpoint-file@none", detail=json.dumps({"operations_on_files_other_than_name_and_name_old": len(other), "first": list(other[0])})))
+    res = dict(dir=d, ev=ev, ops=ops, snaps=snaps, init_ops=first_model or 0, verdict=verdict, wall=wall)
     with ctx.lock: ctx.dry[key] = res
     return res
 
@@ -240,9 +243,10 @@ def snapshot_sections(ctx, scen, snapfile):
             except Exception: pass
     return dict(ok=False, grid_bytes=0)
 
-def section_of(L, n, gb):
+def section_of(L, n, gb, trailing=0):
     if L == 0: return "empty"
     if L >= n: return "complete"
+    if trailing > 0 and L >= n - trailing: return "trailer"
     if L < 6: return "header"
     if L < gb: return "grid"
     if L == gb: return "grid-end"
@@ -254,9 +258,9 @@ def plan(ctx, ncases_override):
     """builds the list of fault specs for the tier (a pure function of seed and tier, apart from the parallel dry runs' op counts)"""
     rnd = random.Random(ctx.seed * 1000003 + (1 if ctx.tier == "thorough" else 0))
     thorough = ctx.tier == "thorough"
-    nseq = 12 if thorough else 6          # sequential scenarios (families cycle with the index: localp, sequence, global, localp, wavelet, fourier; batch 1..3)
-    npar = 12 if thorough else 6
-    if thorough: nseq, npar = 18, 18
+    # scenarios: families cycle with the index (localp, sequence, global, localp, wavelet, fourier, pre-loaded localp with > 1000 points), batch = 1 + (index // 7) % 3
+    nseq = 21 if thorough else 7
+    npar = 14 if thorough else 6
     specs = []
     seq = list(range(nseq)); par = list(range(npar))
     with ThreadPoolExecutor(CK.JOBS) as ex:
@@ -310,15 +314,17 @@ def plan(ctx, ncases_override):
         ks = sorted(set([2, len(snaps) // 2, len(snaps)])) if not thorough else sorted(set([2, 3, len(snaps) // 3, len(snaps) // 2, 2 * len(snaps) // 3, len(snaps) - 1, len(snaps)]))
         for k in ks:
             if k < 2 or k > len(snaps): continue
-            sec = snapshot_sections(ctx, s, snaps[k - 1][3]); n = snaps[k - 1][2]; gb = sec.get("grid_bytes", 0)
+            sec = snapshot_sections(ctx, s, snaps[k - 1][3]); n = snaps[k - 1][2]; gb = sec.get("grid_bytes", 0); tr = sec.get("trailing", 0)
             cover["prefix_space"] += n + 1
-            stride = 1 if (n <= 4096 and (thorough or True)) else max(1, n // 2048)
-            Ls = list(range(0, n + 1, stride))
-            if Ls[-1] != n: Ls.append(n)
+            stride = 1 if n <= 4096 else max(1, n // (2048 if thorough else 256))
+            Ls = set(range(0, n + 1, stride)); Ls.add(n)
+            if n - gb <= 4096: Ls |= set(range(max(0, gb - 8), n + 1))      # the whole stored-samples section and the end of the grid section
+            Ls |= set(range(0, min(n, 64)))                                  # the header
+            Ls = sorted(Ls)
             for L in Ls:
-                pre.append(dict(type="prefix", scen=s, snap=k, L=L, which="main", fclass="torn-main:" + section_of(L, n, gb)))
+                pre.append(dict(type="prefix", scen=s, snap=k, L=L, which="main", fclass="torn-main:" + section_of(L, n, gb, tr)))
             for L in (rnd.sample(range(0, n), min(n, 40 if thorough else 8))):
-                pre.append(dict(type="prefix", scen=s, snap=k, L=L, which="old", fclass="torn-old:" + section_of(L, n, gb)))
+                pre.append(dict(type="prefix", scen=s, snap=k, L=L, which="old", fclass="torn-old:" + section_of(L, n, gb, tr)))
     if not thorough and len(pre) > 2600:
         # keep every boundary class and thin the bulk of the interior prefixes (seeded); thorough keeps everything
         keep = [p for p in pre if not p["fclass"].endswith((":grid", ":stored-data"))]
